@@ -20,7 +20,9 @@ class Cfg:
         del self.__dict__["self"]
 
     def token(self):
-        return ",".join([hx(self.base), ohx(self.disc), "1" if self.ts else "0", ohx(self.sfx),
+        # ts: True / False, or "d" / "D" = the FileSpec leaves it undecided (then a start time is used exactly if there is no
+        # rotation); "D": the Logger is told about the rotation before it gets the FileSpec
+        return ",".join([hx(self.base), ohx(self.disc), self.ts if self.ts in ("d", "D") else ("1" if self.ts else "0"), ohx(self.sfx),
                          "1" if self.append else "0", "~" if self.cap is None else str(self.cap),   # cap: int, or "a<pool>.<msg>" (async)
                          self.crit or "~", self.naming, self.cleanup, "1" if self.utc else "0",
                          "1" if self.link else "0", "1" if self.bg else "0", "1" if self.crlf else "0"])
